@@ -101,3 +101,34 @@ Lemma gen_op_table_keys :
   forallb (fun k => existsb (N.eqb k) Constants.DwOp_values) (map fst OpTable.op_table) = true /\
   nnodup (map fst OpTable.op_table) = true.
 Proof. split; vm_compute; reflexivity. Qed.
+
+(* ---- for ALL inputs (any operand bytes, any encoding, both build modes) *)
+Definition arm_allows (opc : byte) (op : operation) : bool :=
+  match lookup_op (b2n opc) OpTable.op_table with
+  | Some (ctors, _) => smem (op_ctor op) ctors
+  | None => false
+  end.
+
+Ltac crack H :=
+  repeat (cbn [bind] in H;
+          match type of H with
+          | bind ?x _ = Ok _ => destruct x eqn:?; cbn [bind] in H; try discriminate H
+          | (match ?x with _ => _ end) = Ok _ => destruct x eqn:?; try discriminate H
+          end).
+
+(* whenever the model decodes an operation, its variant is one the arm of that opcode in Operation::parse builds *)
+Lemma gen_op_table_all_inputs : forall dbg e opc r op r',
+  parse_opcode dbg e opc r = Ok (op, r') -> arm_allows opc op = true.
+Proof.
+  intros dbg e opc r op r' H.
+  destruct opc; cbn [parse_opcode] in H; try discriminate H;
+    try unfold parse_wasm in H;
+    crack H; injection H as <- <-; vm_compute; reflexivity.
+Qed.
+
+(* an opcode without an arm is InvalidExpression whatever follows *)
+Lemma gen_op_table_no_arm : forall dbg e opc r,
+  lookup_op (b2n opc) OpTable.op_table = None -> parse_opcode dbg e opc r = Err EInvalidExpression.
+Proof.
+  intros dbg e opc r H. destruct opc; vm_compute in H; try discriminate H; reflexivity.
+Qed.
